@@ -102,8 +102,9 @@ EdgeBeyond(r, a, pa, dims, pdims, idx, f, x, e, ci, cj, rule, fill) ==
               sgn == IF AxisDir(gB, bx)[2] = mydir[2] THEN 1 ELSE -1
               \* partner array indices: extra dims by name
               pidx == [q \in DOMAIN pdims |-> IF pdims[q] \in SeqToSet(dims) THEN idx[IndexOf(dims, pdims[q])] ELSE 0]
-          IN sgn * (IF bx = x THEN AtFace(r, a, dims, idx, FaceNo(KK(r), B), ij[1], ij[2])
-                    ELSE AtFace(r, pa, pdims, pidx, FaceNo(KK(r), B), ij[1], ij[2]))
+              val == IF bx = x THEN AtFace(r, a, dims, idx, FaceNo(KK(r), B), ij[1], ij[2])
+                     ELSE AtFace(r, pa, pdims, pidx, FaceNo(KK(r), B), ij[1], ij[2])
+          IN IF val = NaNv THEN NaNv ELSE sgn * val
 
 VFaceVecN(r, resname) ==
   IF ~TableOK(r) THEN "driver-table-mismatch"
